@@ -77,11 +77,11 @@ Print Assumptions C18_with.
 (* nesting, for EVERY program built from leaves, sequencing, try/except, `with db_session(..)` and decorated calls: executed
    inside a live session it commits nothing and rolls nothing back (the trace grows by body events only), leaves the counter
    as it was, and adds exactly its writes to the pending set - whatever options the inner sessions carry *)
-Theorem C18_nested : forall (exc : Type) (should_retry : exc -> bool) (cfail : exc) (p : prog exc) x,
+Theorem C18_nested : forall (exc : Type) (should_retry : exc -> bool) (cfail : exc) (is_exception : exc -> bool) (p : prog exc) x,
   depth x <> 0 ->
   exists t',
-    run exc should_retry cfail p x
-    = (mkst (depth x) (pend x ++ fst (writes exc p)) (comm x) (tr x ++ t'), snd (writes exc p))
+    run exc should_retry cfail is_exception p x
+    = (mkst (depth x) (pend x ++ fst (writes exc is_exception p)) (comm x) (tr x ++ t'), snd (writes exc is_exception p))
     /\ forallb is_run t' = true.
 Proof. exact run_inside. Qed.
 Print Assumptions C18_nested.
@@ -93,14 +93,14 @@ Proof. exact call_stream_nested. Qed.
 Print Assumptions C18_nested_call.
 
 (* only the outermost exit decides, over all writes made inside, and every commit/rollback comes after the whole body *)
-Theorem C18_outermost : forall (exc : Type) (should_retry : exc -> bool) (cfail : exc) (s : sess exc) (p : prog exc) x,
+Theorem C18_outermost : forall (exc : Type) (should_retry : exc -> bool) (cfail : exc) (is_exception : exc -> bool) (s : sess exc) (p : prog exc) x,
   depth x = 0 -> pend x = [] ->
-  let w := fst (writes exc p) in
-  let o := snd (writes exc p) in
+  let w := fst (writes exc is_exception p) in
+  let o := snd (writes exc is_exception p) in
   let ok := can_commit exc s o in
   let bad := existsb snd w in
   exists t1 tl,
-    run exc should_retry cfail (PWith exc s p) x
+    run exc should_retry cfail is_exception (PWith exc s p) x
     = (mkst 0 [] (comm x ++ if ok && negb bad then map fst w else []) (tr x ++ EBegin :: t1 ++ tl),
        if ok && bad then Raise cfail else o)
     /\ forallb is_run t1 = true /\ forallb is_txn tl = true.
@@ -169,6 +169,19 @@ Theorem C18_commit_decision_matches_source : forall (exc : Type) (cfail : exc) (
     end.
 Proof. exact commit_or_rollback_src. Qed.
 Print Assumptions C18_commit_decision_matches_source.
+
+(* `exc` ranges over all BaseExceptions - SystemExit, KeyboardInterrupt, GeneratorExit, user classes derived from BaseException -
+   not only over Exception: every theorem above holds for them (the session's handlers are bare `except:`); the predicate
+   is_exception only decides what a user's own `try: ... except Exception` swallows.  Exception 6 is not an Exception: it passes
+   through the user's try, is neither allowed nor retryable, so the decorated function rolls back and lets it out. *)
+Example C18_base_exception :
+  let s := mksess nat 1 (fun e => e =? 1) (fun e => e =? 2) in
+  run nat (fun _ => false) 0 (fun e => negb (e =? 6)) (PCall nat s (PTry nat (PLeaf nat 1 false (Raise 6)))) st0
+  = (mkst 0 [] [] [EBegin; ERun 1 0 1; ERollback 1], Raise 6)
+  /\ run nat (fun _ => false) 0 (fun e => negb (e =? 6)) (PCall nat s (PTry nat (PLeaf nat 1 false (Raise 5)))) st0
+  = (mkst 0 [] [1] [EBegin; ERun 1 0 1; ECommit 1; ECommit 0], Ok).
+Proof. vm_compute. split; reflexivity. Qed.
+Print Assumptions C18_base_exception.
 
 (* the hypotheses are satisfiable and the machine is not trivial: retry=2, attempt 0 raises a retryable exception (1),
    attempt 1 finishes but its commit fails with a retryable exception (2 = cfail), attempt 2 raises an allowed one (3) *)
